@@ -536,6 +536,13 @@ impl<'a> Rw<'a> {
         if mc.method == "count" && mc.args.is_empty() {
             return self.try_filter_count(mc);
         }
+        if mc.method == "find" && mc.args.len() == 1 {
+            if let syn::Expr::MethodCall(m) = &*mc.receiver {
+                if (m.method == "iter" || m.method == "clone") && m.args.is_empty() {
+                    return self.try_iter_find(mc, m);
+                }
+            }
+        }
         if mc.method == "unzip" && mc.args.is_empty() {
             if let syn::Expr::MethodCall(m) = &*mc.receiver {
                 if m.method == "map" && m.args.len() == 1 {
@@ -957,6 +964,35 @@ impl<'a> Rw<'a> {
             inv, dec, ls.body_prologue, ls.after), "R13-filter-count");
         self.visit_expr(x);
         self.visit_expr(&fl.args[0]);
+        true
+    }
+
+    /// R13: `X.iter().find(P)` -> the first element (in slice order) for which P holds: the index loop `Iterator::find`
+    /// is defined as.  Also `X.clone().find(P)` where X is a restartable iterator that the plan monomorphises to the
+    /// slice it iterates (the clone restarts at the first element).
+    fn try_iter_find(&mut self, mc: &syn::ExprMethodCall, it: &syn::ExprMethodCall) -> bool {
+        let k = self.iter_chain_idx;
+        let ls = match self.spec.iter_loops.get(&k.to_string()).cloned() {
+            Some(l) => l,
+            None => return false,
+        };
+        self.iter_chain_idx += 1;
+        let x = &*it.receiver;
+        let (xs, xe) = br(x.span());
+        let (ps, pe) = br(mc.args[0].span());
+        let (_, end) = br(mc.span());
+        let mut inv = String::new();
+        if !ls.invariant.is_empty() {
+            inv.push_str(&format!(" invariant {},", ls.invariant.join(", ")));
+        }
+        let dec = if ls.decreases.is_empty() { "(__it.len() - __i) * 2 + (if __r is None { 1int } else { 0int })".to_string() } else { ls.decreases.clone() };
+        self.insert_open(xs, "{ let __it = ".to_string());
+        self.replace_range(xe, ps, "; let __p = ".to_string(), "R13-iter-find");
+        self.replace_range(pe, end, format!(
+            "; let mut __r = None; let mut __i: usize = 0; while __i < __it.len() && __r.is_none(){} decreases {}, {{ {} if __p(&&__it[__i]) {{ __r = Some(&__it[__i]); }} else {{ __i += 1; }} }} {} __r }}",
+            inv, dec, ls.body_prologue, ls.after), "R13-iter-find");
+        self.visit_expr(x);
+        self.visit_expr(&mc.args[0]);
         true
     }
 
